@@ -187,8 +187,19 @@ func runC01(c *core.Ctx) {
 	for i := 0; i < ntx; i++ {
 		txs = append(txs, gen.Transaction(r, w, 5+r.IntN(10)))
 	}
+	twin := r.IntN(3) == 0
+	if twin {
+		// the same contract under the same name on account 0x2; resources of both locations
+		// are stored side by side and destroyed by one transaction that imports neither
+		at := len(txs) / 2
+		txs = append(txs[:at], append([]*gen.Program{gen.TwinTx(r)}, txs[at:]...)...)
+		txs = append(txs, gen.SweeperTx(r))
+	}
 	for _, eng := range host.AllEngines {
 		h := host.New()
+		if twin {
+			h.Deploy(eng, host.Addr(2), "C0", contract)
+		}
 		d := h.Deploy(eng, host.Addr(1), "C0", contract)
 		c.Eval(1)
 		if d.Err != nil || d.Escaped != nil {
